@@ -466,7 +466,7 @@ func collapseFastForwards(
 							delete(mergedSeq, child.Hash)
 							mergedDag[immediateParent] = mergedDag[child.Hash]
 							delete(mergedDag, child.Hash)
-							parents[child.Hash] = parents[immediateParent]
+							parents[child.Hash] = copyHashSet(parents[immediateParent])
 							for _, vals := range parents {
 								for v := range vals {
 									if v == child.Hash {
@@ -510,6 +510,11 @@ func collapseFastForwards(
 				newVals = append(newVals, child)
 			}
 		}
+		// update parents
+		for rm := range toRemove {
+			delete(parents[rm], key)
+		}
+
 		merged := false
 		if len(newVals) == 1 {
 			onlyChild := newVals[0].Hash
@@ -519,7 +524,7 @@ func collapseFastForwards(
 				delete(mergedSeq, onlyChild)
 				mergedDag[key] = mergedDag[onlyChild]
 				delete(mergedDag, onlyChild)
-				parents[onlyChild] = parents[key]
+				parents[onlyChild] = copyHashSet(parents[key])
 				for _, vals := range parents {
 					for v := range vals {
 						if v == onlyChild {
@@ -530,11 +535,6 @@ func collapseFastForwards(
 					}
 				}
 			}
-		}
-
-		// update parents
-		for rm := range toRemove {
-			delete(parents[rm], key)
 		}
 
 		if !merged {
@@ -791,4 +791,12 @@ func insertHibernateBoot(plan []runAction, hibernationDistance int) []runAction 
 		}
 	}
 	return newPlan
+}
+
+func copyHashSet(m map[plumbing.Hash]bool) map[plumbing.Hash]bool {
+	r := map[plumbing.Hash]bool{}
+	for k, v := range m {
+		r[k] = v
+	}
+	return r
 }
